@@ -153,7 +153,8 @@ def rule_fromast(prog, rep):
     standalone validation reports `$v` as unused although the document is valid with the schema."""
     from ..flow import derives
     rep.floor("C19.FROMAST", 5)
-    f = prog.fn(r"^apollo_compiler::executable::from_ast::<impl apollo_compiler::executable::SelectionSet>::extend_from_ast$")
+    f = prog.inline(prog.fn(r"^apollo_compiler::executable::from_ast::<impl apollo_compiler::executable::SelectionSet>::extend_from_ast$"),
+                    keep=r"::(extend_from_ast|with_ast_selections|type_field|new|push|new_inline_fragment|new_fragment_spread|with_directives|with_arguments|with_opt_alias)$")
     pushes = [c for c in f.live_calls() if re.search(r"executable::SelectionSet::push$", c.name)]
     seen = set()
     for c in pushes:
